@@ -18,15 +18,21 @@ import (
 	"context"
 	"errors"
 	"fmt"
+	"io"
+	"net"
+	"os"
 	"sort"
 	"strings"
 	"sync"
 	"sync/atomic"
+	"syscall"
 	"testing"
 	"time"
 
 	"github.com/containerd/nri/pkg/api"
 	"github.com/containerd/nri/pkg/stub"
+	"github.com/containerd/ttrpc"
+	"google.golang.org/grpc/codes"
 	"google.golang.org/grpc/status"
 	"google.golang.org/protobuf/proto"
 	"pgregory.net/rapid"
@@ -47,8 +53,91 @@ type C19Upd struct {
 type C19Call struct {
 	Updates     []C19Upd `json:"updates"`
 	Fail        []int    `json:"fail,omitempty"`          // positions of Updates returned as failed, in this order
-	Err         string   `json:"err,omitempty"`           // non-empty: UpdateFn returns this error
+	Err         string   `json:"err,omitempty"`           // text of the error UpdateFn returns (see ErrForm)
 	FailWithErr bool     `json:"fail_with_err,omitempty"` // … together with the failed list
+	// ErrForm: "" = no error unless Err is set (then plain); plain = errors.New(Err);
+	// status = status.Error(codes.Code(ErrCode), Err), ErrCode 1..16; wrap =
+	// fmt.Errorf("<Err>: %w", sentinel); bare = the sentinel itself
+	ErrForm     string `json:"err_form,omitempty"`
+	ErrCode     int    `json:"err_code,omitempty"`
+	ErrSentinel string `json:"err_sentinel,omitempty"`
+}
+
+// the errors a transport would produce; coming from the runtime's callback they are just
+// the callback's error
+var c19Sentinels = map[string]error{
+	"context.DeadlineExceeded": context.DeadlineExceeded,
+	"context.Canceled":         context.Canceled,
+	"io.EOF":                   io.EOF,
+	"io.ErrUnexpectedEOF":      io.ErrUnexpectedEOF,
+	"io.ErrClosedPipe":         io.ErrClosedPipe,
+	"ttrpc.ErrClosed":          ttrpc.ErrClosed,
+	"ttrpc.ErrServerClosed":    ttrpc.ErrServerClosed,
+	"ttrpc.ErrProtocol":        ttrpc.ErrProtocol,
+	"ttrpc.ErrStreamClosed":    ttrpc.ErrStreamClosed,
+	"ttrpc.Oversized":          ttrpc.OversizedMessageError(5 << 20),
+	"proto.Error":              proto.Error,
+	"net.ErrClosed":            net.ErrClosed,
+	"os.ErrDeadlineExceeded":   os.ErrDeadlineExceeded,
+	"syscall.EPIPE":            syscall.EPIPE,
+	"syscall.ECONNRESET":       syscall.ECONNRESET,
+	"syscall.ENOMEM":           syscall.ENOMEM,
+}
+
+var c19SentinelNames = []string{
+	"ttrpc.Oversized", "context.DeadlineExceeded", "ttrpc.ErrClosed", "io.ErrUnexpectedEOF", "proto.Error", "context.Canceled",
+	"io.EOF", "ttrpc.ErrProtocol", "ttrpc.ErrServerClosed", "ttrpc.ErrStreamClosed", "io.ErrClosedPipe", "net.ErrClosed",
+	"os.ErrDeadlineExceeded", "syscall.EPIPE", "syscall.ECONNRESET", "syscall.ENOMEM",
+}
+
+var c19ErrTexts = []string{
+	"", "not enough exclusive CPUs", "update failed: no such container", "rpc error: code = Unknown desc = nested",
+	"ünïcödé ✗", "%s %d", "EOF", "ttrpc: closed", "context deadline exceeded", "unexpected EOF",
+	"message length 5242880 exceed maximum message size of 4194304", "proto: cannot parse invalid wire-format data",
+	"resource exhausted", "ttrpc: oversized message",
+}
+
+// callbackErr builds the error UpdateFn returns for the call (nil if none) and the status
+// message the plugin must be shown.
+func (c C19Call) callbackErr() (error, string) {
+	switch c.ErrForm {
+	case "status":
+		code := codes.Code(c.ErrCode)
+		if code == codes.OK || code > codes.Unauthenticated {
+			code = codes.Unknown
+		}
+		return status.Error(code, c.Err), c.Err
+	case "wrap":
+		if s, ok := c19Sentinels[c.ErrSentinel]; ok {
+			e := fmt.Errorf("%s: %w", c.Err, s)
+			return e, e.Error()
+		}
+	case "bare":
+		if s, ok := c19Sentinels[c.ErrSentinel]; ok {
+			return s, s.Error()
+		}
+	case "":
+		if c.Err == "" {
+			return nil, ""
+		}
+	}
+	return errors.New(c.Err), c.Err
+}
+
+func (c C19Call) errClass() string {
+	switch c.ErrForm {
+	case "status":
+		code := codes.Code(c.ErrCode)
+		if code == codes.OK || code > codes.Unauthenticated {
+			code = codes.Unknown
+		}
+		return "callback-error:status:" + code.String()
+	case "wrap", "bare":
+		if _, ok := c19Sentinels[c.ErrSentinel]; ok {
+			return "callback-error:" + c.ErrForm + ":" + c.ErrSentinel
+		}
+	}
+	return "callback-error:plain"
 }
 
 type C19Updater struct {
@@ -124,11 +213,24 @@ func genC19Call(allowEmpty bool) *rapid.Generator[C19Call] {
 		default: // a drawn sub-list in drawn order
 			c.Fail = rapid.SliceOfNDistinct(rapid.IntRange(0, n-1), 1, n, rapid.ID[int]).Draw(t, "fail")
 		}
-		if rapid.IntRange(0, 4).Draw(t, "err") == 0 {
+		if rapid.IntRange(0, 2).Draw(t, "err") == 0 {
 			c.Err = rapid.OneOf(
 				rapid.StringMatching(`[a-zA-Z0-9][a-zA-Z0-9 _.:/=-]{0,30}`),
-				rapid.SampledFrom([]string{"update failed: no such container", "rpc error: code = Unknown desc = nested", "ünïcödé ✗", "%s %d", "EOF", "ttrpc: closed"}),
+				rapid.SampledFrom(c19ErrTexts),
 			).Draw(t, "err_text")
+			switch k := rapid.IntRange(0, 9).Draw(t, "err_form"); {
+			case k < 3:
+				c.ErrForm = "plain"
+			case k < 7:
+				c.ErrForm = "status"
+				c.ErrCode = rapid.SampledFrom([]int{8, 1, 2, 3, 4, 5, 6, 7, 8, 9, 10, 11, 12, 13, 14, 15, 16}).Draw(t, "err_code")
+			case k < 9:
+				c.ErrForm = "wrap"
+				c.ErrSentinel = rapid.SampledFrom(c19SentinelNames).Draw(t, "err_sentinel")
+			default:
+				c.ErrForm = "bare"
+				c.ErrSentinel = rapid.SampledFrom(c19SentinelNames).Draw(t, "err_sentinel")
+			}
 			c.FailWithErr = rapid.Bool().Draw(t, "fail_with_err")
 		}
 		return c
@@ -334,13 +436,10 @@ func (x *c19Exec) updateFn(_ context.Context, u []*api.ContainerUpdate) ([]*api.
 	if !planned {
 		return nil, nil
 	}
-	var err error
 	failed := c19Failed(tag, plan)
-	if plan.Err != "" {
-		err = errors.New(plan.Err)
-		if !plan.FailWithErr {
-			failed = nil
-		}
+	err, _ := plan.callbackErr()
+	if err != nil && !plan.FailWithErr {
+		failed = nil
 	}
 	return failed, err
 }
@@ -738,13 +837,17 @@ func c19Strict(is *c19Issued, ss []c19Seen, classes map[string]bool) string {
 		return fmt.Sprintf("%s: UpdateFn did not receive the updates the plugin sent: %s", what, why)
 	}
 	call := is.call
-	if call.Err != "" {
+	if cbErr, wantMsg := call.callbackErr(); cbErr != nil {
 		classes["callback-error"] = true
-		if is.err == nil {
-			return fmt.Sprintf("%s: UpdateFn failed with %q but the plugin received no error (failed list %v)", what, call.Err, is.FailedIDs)
+		classes[call.errClass()] = true
+		if is.N >= 2 {
+			classes["callback-error-on-multi-update-call"] = true
 		}
-		if is.ErrMsg != call.Err {
-			return fmt.Sprintf("%s: UpdateFn failed with %q but the plugin received %q (message %q)", what, call.Err, is.Err, is.ErrMsg)
+		if is.err == nil {
+			return fmt.Sprintf("%s: UpdateFn failed with %q (%s) but the plugin received no error (failed list %v)", what, wantMsg, call.errClass(), is.FailedIDs)
+		}
+		if is.ErrMsg != wantMsg {
+			return fmt.Sprintf("%s: UpdateFn failed with %q (%s) but the plugin received %q (message %q)", what, wantMsg, call.errClass(), is.Err, is.ErrMsg)
 		}
 		if len(is.failed) != 0 {
 			if ok, why := c19EqualLists(c19Failed(is.Tag, call), is.failed); !ok {
